@@ -586,6 +586,46 @@ fn recover(path: &str, blocks: u64) -> Result<Recovered, String> {
     }
 }
 
+/// a working session on a recovered device: delete / rewrite / keep each recovered key, flush, close, open again
+fn second_session(path: &str, blocks: u64, rv: &Recovered, seed: u64) -> Option<String> {
+    let mut rng = Rng::new(seed);
+    let store = open_store(path, blocks, false).ok()?;
+    let mut expect: BTreeMap<Vec<u8>, Option<(u64, usize)>> = BTreeMap::new();
+    let mut did: Vec<String> = vec![];
+    for (k, (dig, len, _)) in rv.contents.iter() {
+        match rng.below(4) {
+            0 | 1 => {
+                if store.delete(k).is_ok() { expect.insert(k.clone(), None); did.push(format!("delete {}", hex(k))); }
+                else { expect.insert(k.clone(), Some((*dig, *len))); }
+            }
+            2 => {
+                let v: Vec<u8> = (0..rng.range(1, 6000) as usize).map(|i| (i as u8).wrapping_mul(7) ^ 0xA5).collect();
+                if store.insert(k, &v).is_ok() { expect.insert(k.clone(), Some((fnv(&v), v.len()))); did.push(format!("insert {} ({} bytes)", hex(k), v.len())); }
+                else { expect.insert(k.clone(), Some((*dig, *len))); }
+            }
+            _ => { expect.insert(k.clone(), Some((*dig, *len))); }
+        }
+    }
+    if store.flush().is_err() { drop(store); return None; }
+    drop(store);
+    let again = match recover(path, blocks) {
+        Ok(a) => a,
+        Err(e) => return Some(format!("after a session on the recovered device ({}; flush = Ok; close) the device does not reopen: {}", did.join(", "), e)),
+    };
+    for (k, want) in &expect {
+        let got = again.contents.get(k).map(|(d, l, _)| (*d, *l));
+        if got != *want {
+            return Some(format!("after a session on the recovered device ({}; flush = Ok; close) the next open shows key {} as {} where the acknowledged state is {}",
+                did.join(", "), hex(k), match got { None => "absent".to_string(), Some((_, l)) => format!("a {}-byte value", l) },
+                match want { None => "deleted".to_string(), Some((_, l)) => format!("a {}-byte value", l) }));
+        }
+    }
+    if let Some(k) = again.contents.keys().find(|k| !expect.contains_key(*k)) {
+        return Some(format!("after a session on the recovered device ({}; flush = Ok; close) the next open shows key {}, which the recovered store did not hold", did.join(", "), hex(k)));
+    }
+    None
+}
+
 /// does the recovered state satisfy C02/C03 at this crash point?
 fn check_window(w: &Workload, win: &HashMap<Vec<u8>, (usize, usize)>, r: &Recovered) -> Option<String> {
     if r.len != r.contents.len() {
@@ -722,6 +762,15 @@ fn explore_crashes(rng: &mut Rng, out: &mut Out, rec: &Arc<Recorder>, w: &Worklo
                         Ok(a) if a.contents == rv.contents => out.fail("C04", format!("a second recovery of the same device rebuilds a different free list: first {:?}, second {:?} (crash after event {}, {})", rv.free, a.free, upto, vname), &keep),
                         Ok(_) => out.fail("C04", format!("second open of a recovered image exposes different contents (crash after event {}, {})", upto, vname), &keep),
                         Err(e) => out.fail("C04", format!("second open of a recovered image fails: {}", e), &keep),
+                    }
+                    // C02 across sessions: the recovered store is put to use - some of the recovered keys deleted, some
+                    // rewritten - flushed (acknowledged) and closed; the next open must show exactly that.  (A stale
+                    // generation that recovery left on the device stays hidden only as long as its winner lives.)
+                    if !rv.contents.is_empty() && rng.chance(1, 3) {
+                        out.count("second session on a recovered image");
+                        if let Some(why) = second_session(&p, w.blocks, rv, rng.next()) {
+                            out.fail("C02", format!("{} — on the image of the crash after event {} ({}), un-synced writes: {}", why, upto, describe(trace, upto), vname), &keep);
+                        }
                     }
                     // C04: crash inside recovery's own repair writes, then recover again
                     let rio: Vec<usize> = rtrace.iter().enumerate().filter(|(_, e)| matches!(e, Ev::Write { .. })).map(|(i, _)| i + 1).collect();
